@@ -8,7 +8,7 @@ from sympy import I, Symbol
 
 from discopy.quantum import gates, circuit, cqmap
 from discopy.quantum.circuit import Measure, Encode, Discard, MixedState, bit, qubit
-from discopy.quantum.gates import Rx, Ry, Rz, CRz, scalar, ClassicalGate, Bits, Copy, Match
+from discopy.quantum.gates import Rx, Ry, Rz, CRz, CRx, CU1, scalar, ClassicalGate, Bits, Copy, Match
 from contracts import spec_quantum as S
 from rtc import cqsim
 from symrun.harness import Suite
@@ -39,6 +39,7 @@ def run(tier):
     F = cqmap.Functor()
     gen = {
         'pure.Rx(phi)': Rx(phi), 'pure.Ry(phi)': Ry(phi), 'pure.Rz(phi)': Rz(phi), 'pure.CRz(phi)': CRz(phi),
+        'pure.CRx(phi)': CRx(phi), 'pure.CU1(phi)': CU1(phi), 'pure.CRx(phi).dagger': CRx(phi).dagger(),
         'pure.H': gates.H, 'pure.S': gates.S, 'pure.S.dagger': gates.S.dagger(), 'pure.T': gates.T, 'pure.Y': gates.Y,
         'pure.CX': gates.CX, 'pure.Ket(1,0)': gates.Ket(1, 0), 'pure.Bra(0,1)': gates.Bra(0, 1),
         'measure': Measure(), 'measure(2)': Measure(2), 'measure.nondestructive': Measure(destructive=False),
